@@ -322,6 +322,12 @@ def parse_label(M: Model, v: ast.expr, n: str):
         m = alias_of(M, a)
         if m is None:
             return None
+        # the matched ancestor given by an index into the name: alias(n[:L]) + n[L:]
+        if isinstance(m, ast.Subscript) and isinstance(m.slice, ast.Slice) and m.slice.lower is None and m.slice.step is None and m.slice.upper is not None and _is_name(m.value, n):
+            if isinstance(r, ast.Subscript) and isinstance(r.slice, ast.Slice) and r.slice.upper is None and r.slice.step is None and r.slice.lower is not None and _is_name(r.value, n):
+                if norm(r.slice.lower) == norm(m.slice.upper):
+                    return m, f"{norm(a, 40)} + {norm(r, 30)} (ancestor and remainder split the name at one index)"
+                return "bad", f"`{norm(a, 40)} + {norm(r, 30)}`: the ancestor ends at `{norm(m.slice.upper, 20)}` but the remainder starts at `{norm(r.slice.lower, 20)}` - the part of the name in between (the separator) is lost or doubled"
         d = rest_of(r, n, m.id if isinstance(m, ast.Name) else norm(m, 400))
         if d is not None:
             return m, f"{norm(a, 40)} + {d}"
@@ -409,6 +415,72 @@ def _comp_of(M: Model, e: ast.expr):
     return None
 
 
+def _index_walk(M: Model, idx: str, ev: Event):
+    """The matched ancestor is `n[:idx]` where idx walks over the ends of the name's own dotted prefixes:
+        w = len(n)                       (the name itself first;  n.rfind('.') : its parent first)
+        while ...: if n[:w] in aliased: <hit: idx = w / use w>; break
+                   w = n.rfind('.', 0, w)      (next shorter prefix: nearest ancestor first;  n.find('.', w + 1): root first)
+    -> Selection with the candidates known as the module's lineage, or a reason (str), or None if this is not such a walk."""
+    n = ev.n
+    bs = M.binds.get(idx, [])
+    if not bs or any(b.kind != "assign" or b.value is None for b in bs):
+        return None
+
+    def walk_var(name: str):
+        wb = M.binds.get(name, [])
+        if len(wb) != 2 or any(b.kind != "assign" or b.value is None for b in wb):
+            return None
+        inside = [b for b in wb if any(isinstance(x, ast.While) for x in M.loops_around(b.stmt, whiles=True))]
+        outside = [b for b in wb if b not in inside]
+        if len(inside) != 1 or len(outside) != 1:
+            return None
+        if not any(isinstance(x, ast.Name) and x.id == name for x in ast.walk(inside[0].value)):
+            return None  # the step computes the next index from the current one
+        return outside[0], inside[0]
+
+    hits = []
+    if walk_var(idx) is not None:
+        w = idx
+        hits = [ev.node]
+    else:
+        ws = {b.value.id for b in bs if isinstance(b.value, ast.Name)}
+        rest = [b for b in bs if not isinstance(b.value, ast.Name)]
+        if len(ws) != 1 or any(not isinstance(b.value, ast.Constant) for b in rest):
+            return None
+        w = next(iter(ws))
+        if walk_var(w) is None:
+            return None
+        hits = [b.stmt for b in bs if isinstance(b.value, ast.Name)]
+    start, step = walk_var(w)
+    W = [x for x in M.loops_around(step.stmt, whiles=True) if isinstance(x, ast.While)][-1]
+    if not all(any(x is W for x in M.loops_around(h, whiles=True)) for h in hits):
+        return f"the index `{idx}` of the matched ancestor is not set inside the walk over the prefixes of `{n}`"
+
+    def dot_search(e: ast.expr, which: str) -> bool:
+        return isinstance(e, ast.Call) and isinstance(e.func, ast.Attribute) and e.func.attr == which and _is_name(e.func.value, n) and e.args and const_str(e.args[0]) == "."
+
+    sv, tv = M.resolve(start.value), step.value
+    if isinstance(sv, ast.Call) and isinstance(sv.func, ast.Name) and sv.func.id == "len" and len(sv.args) == 1 and _is_name(sv.args[0], n):
+        domain = "lineage"
+    elif dot_search(sv, "rfind") and len(sv.args) == 1:
+        domain = "parents"  # starts at the last separator: the name itself is never a candidate
+    else:
+        return f"the walk over the prefixes of `{n}` starts at `{norm(start.value, 40)}`: not recognised"
+    if dot_search(tv, "rfind") and len(tv.args) == 3 and isinstance(tv.args[1], ast.Constant) and tv.args[1].value == 0 and _is_name(tv.args[2], w):
+        order = "near"  # the last separator before the current end: the next shorter prefix
+    elif dot_search(tv, "find"):
+        order = "far"  # searching from the left visits the root first
+    else:
+        return f"the step `{w} = {norm(step.value, 50)}` of the walk over the prefixes of `{n}` is not recognised"
+    cand = f"{n}[:{w}]"
+    cs = [c for h in hits for c in M.cond_list(h) if id(c[0]) != id(W.test)]
+    outer = {id(c[0]) for c in M.cond_list(W)}
+    within = {id(x) for x in ast.walk(W)}
+    P = f_or([f_and([M.formula(e, pol) for e, pol in M.cond_list(h) if id(e) != id(W.test) and id(e) not in outer and id(e) in within]) for h in hits])
+    disc = "first" if all(_followed_by_break(M, h, W) for h in hits) else "every"
+    return Selection(cand, ast.Name(id=w, ctx=ast.Load()), P, disc, W, W, [c[0] for c in cs] + [start.value, step.value], known=(domain, order))
+
+
 def _predicate_as_lambda(M: Model, pred: ast.expr) -> ast.Lambda | None:
     """one-argument predicate given as a lambda, a bound method (`name.startswith`), a local closure or a repo function"""
     if isinstance(pred, ast.Lambda):
@@ -449,6 +521,10 @@ def find_selection(M: Model, m_expr: ast.expr, ev: Event) -> Selection | str:
             if isinstance(got, str):
                 return got
             got.cand = f"{got.cand}.{info['module']}"
+            return got
+    if isinstance(m_expr, ast.Subscript) and isinstance(m_expr.slice, ast.Slice) and m_expr.slice.lower is None and m_expr.slice.step is None and isinstance(m_expr.slice.upper, ast.Name) and ev.n is not None and _is_name(m_expr.value, ev.n):
+        got = _index_walk(M, m_expr.slice.upper.id, ev)
+        if got is not None:
             return got
     if not isinstance(m_expr, ast.Name):
         # <filtered candidates>[0] / [-1]
@@ -962,8 +1038,11 @@ def _generator_as_list(M: Model, call: ast.Call) -> ast.expr | None:
 
 def _dotted(e: ast.AST, c: str) -> bool:
     """`e` is the text "<c>." """
-    if isinstance(e, ast.JoinedStr) and len(e.values) == 2 and isinstance(e.values[0], ast.FormattedValue) and _is_name(e.values[0].value, c) and e.values[0].conversion == -1 and const_str(e.values[1]) == ".":
-        return True
+    if isinstance(e, ast.JoinedStr) and len(e.values) >= 2 and isinstance(e.values[0], ast.FormattedValue) and _is_name(e.values[0].value, c) and e.values[0].conversion == -1:
+        # f"{c}." / f"{c}{SEPARATOR}" with the separator constant folded in
+        rest = [const_str(v) if not isinstance(v, ast.FormattedValue) else (const_str(v.value) if v.conversion == -1 and v.format_spec is None else None) for v in e.values[1:]]
+        if all(r is not None for r in rest) and "".join(rest) == ".":
+            return True
     if isinstance(e, ast.BinOp) and isinstance(e.op, ast.Add) and _is_name(e.left, c) and const_str(e.right) == ".":
         return True
     if isinstance(e, ast.Call) and isinstance(e.func, ast.Attribute) and e.func.attr == "format" and const_str(e.func.value) == "{}." and len(e.args) == 1 and _is_name(e.args[0], c):
